@@ -277,8 +277,35 @@ func mustReach(from ssa.Instruction, target func(ssa.Instruction) bool, panics b
 			if target(in) {
 				return true
 			}
+			// a call of a new helper in which the target always runs
+			if c, isCall := in.(*ssa.Call); isCall {
+				if h := c.Call.StaticCallee(); h != nil && flattenable[h] {
+					hit := false
+					forEachOwnInstr(h, func(x ssa.Instruction) {
+						if target(x) && alwaysRuns(x) {
+							hit = true
+						}
+					})
+					if hit {
+						return true
+					}
+				}
+			}
 			switch in.(type) {
 			case *ssa.Return:
+				// the return of a new helper continues after each of its call sites
+				if g := b.Parent(); flattenable[g] && len(helperSites[g]) > 0 {
+					all := true
+					for _, site := range helperSites[g] {
+						sb := site.Block()
+						if !walk(sb, instrIndex(site)+1) {
+							all = false
+						}
+					}
+					if all {
+						return true
+					}
+				}
 				bad = in
 				return false
 			case *ssa.Panic:
